@@ -600,9 +600,11 @@ pub fn prepare(line: &str, prefix_length: usize, config: &config::Config) -> Str
 // Remove initial -/+ characters, expand tabs as spaces, retaining ANSI sequences. Terminate with
 // newline character.
 pub fn prepare_raw_line(raw_line: &str, prefix_length: usize, config: &config::Config) -> String {
-    let mut line = tabs::expand(raw_line, &config.tab_cfg);
+    let line = tabs::expand(raw_line, &config.tab_cfg);
+    // (The newline is added afterwards: a line shorter than the prefix must not lose it.)
+    let mut line = ansi::ansi_preserving_slice(&line, prefix_length);
     line.push('\n');
-    ansi::ansi_preserving_slice(&line, prefix_length)
+    line
 }
 
 pub fn paint_minus_and_plus_lines(
@@ -788,13 +790,13 @@ fn painted_prefix(state: State, config: &config::Config) -> Option<ANSIString> {
         // no way to distinguish, say, a '+ ' line from a ' +' line, by styles alone. In a merge
         // conflict we do honor the setting because the way merge conflicts are displayed indicates
         // from which commit the lines derive.
-        (HunkMinus(Combined(MergeParents::Prefix(prefix), InMergeConflict::No), _), _) => {
+        (HunkMinus(Combined(MergeParents::Prefix(prefix, _), InMergeConflict::No), _), _) => {
             Some(config.minus_style.paint(prefix))
         }
-        (HunkZero(Combined(MergeParents::Prefix(prefix), InMergeConflict::No), _), _) => {
+        (HunkZero(Combined(MergeParents::Prefix(prefix, _), InMergeConflict::No), _), _) => {
             Some(config.zero_style.paint(prefix))
         }
-        (HunkPlus(Combined(MergeParents::Prefix(prefix), InMergeConflict::No), _), _) => {
+        (HunkPlus(Combined(MergeParents::Prefix(prefix, _), InMergeConflict::No), _), _) => {
             Some(config.plus_style.paint(prefix))
         }
         // But otherwise we honor keep_plus_minus_markers
